@@ -50,6 +50,10 @@ def judge_c11(scn, run) -> Tuple[List[tuple], Dict[str, int]]:
             continue
         today = localtime.local_dt(z, o["wall"]).date()
         cands = localtime.epochs_for(z, today, int(s[:2]), int(s[3:]))
+        today1 = localtime.local_dt(z, o.get("wall1", o["wall"])).date()
+        if today1 != today:
+            cnt(c, "probe:clock-crossed-midnight-during-call")
+            cands = cands + [e for e in localtime.epochs_for(z, today1, int(s[:2]), int(s[3:])) if e not in cands]
         if not cands:
             cnt(c, "grey:nonexistent-local-time")
             continue
@@ -114,19 +118,34 @@ def judge_c13(scn, run) -> Tuple[List[tuple], Dict[str, int]]:
             if got[0] != "today":
                 v.append(("C13/no-days-not-today", "no days selected but text is %r" % o["res"][1]))
             continue
-        accept = []
-        if wd in days and sm > nm:
-            accept.append(("today", None))
-        elif wd in days and sm == nm:
-            cnt(c, "grey:start-equals-now")
-            accept.append(("today", None))
-        if not accept or sm == nm:
-            k = next(k for k in range(1, 8) if (wd + k) % 7 in days)
-            accept.append(("tomorrow", None) if k == 1 else ("next", WEEKDAYS[(wd + k) % 7]))
-            if k == 7:
-                cnt(c, "probe:full-week-ahead")
-            if k == 1 and wd == 6:
-                cnt(c, "probe:sunday-to-monday")
+        def accept_at(wall):
+            dd = localtime.local_dt(z, wall)
+            w, n = dd.weekday(), dd.hour * 60 + dd.minute
+            acc = []
+            if w in days and sm > n:
+                acc.append(("today", None))
+            elif w in days and sm == n:
+                cnt(c, "grey:start-equals-now")
+                acc.append(("today", None))
+            if not acc or sm == n:
+                k = next(k for k in range(1, 8) if (w + k) % 7 in days)
+                acc.append(("tomorrow", None) if k == 1 else ("next", WEEKDAYS[(w + k) % 7]))
+                if k == 7:
+                    cnt(c, "probe:full-week-ahead")
+                if k == 1 and w == 6:
+                    cnt(c, "probe:sunday-to-monday")
+            return acc
+
+        accept = accept_at(o["wall"])
+        w1 = o.get("wall1", o["wall"])
+        if w1 != o["wall"]:
+            # the clock moved while the call ran (ticking-clock runs): correct for either end of the call
+            d1 = localtime.local_dt(z, w1)
+            if (d1.date(), d1.hour, d1.minute) != (d.date(), d.hour, d.minute):
+                cnt(c, "probe:clock-crossed-minute-during-call")
+                if d1.date() != d.date():
+                    cnt(c, "probe:clock-crossed-midnight-during-call")
+                accept = accept + [x for x in accept_at(w1) if x not in accept]
         cnt(c, "judged")
         if got not in accept:
             today_sel = wd in days
